@@ -488,6 +488,30 @@ pub fn polygon_event(rng: &mut Rng, depth: u8, exact: bool, centre: (f64, f64), 
   }
   m.insert("contains_bad".into(), json!(contains_bad));
   m.insert("contains_n".into(), json!(contains_n));
+  // attribution only (known findings): the bounding cone as the crate documents it (mean direction of the vertices, largest
+  // distance to a vertex), whether its centre is in a polar cap, whether its radius is just below an entry of the starting-depth
+  // table, and whether every vertex cell at the starting depth is the centre cell or one of its neighbours
+  {
+    let p: Vec<(f64, f64, f64)> = vs.iter().map(|(lo, la)| (la.cos() * lo.cos(), la.cos() * lo.sin(), la.sin())).collect();
+    let nn = p.len() as f64;
+    let (mut x, mut y, mut z) = (0.0, 0.0, 0.0);
+    for q in p.iter() { x += q.0; y += q.1; z += q.2; }
+    let norm = ((x / nn).powi(2) + (y / nn).powi(2) + (z / nn).powi(2)).sqrt();
+    let c = (x / nn / norm, y / nn / norm, z / nn / norm);
+    let d2max = p.iter().map(|q| (c.0 - q.0).powi(2) + (c.1 - q.1).powi(2) + (c.2 - q.2).powi(2)).fold(0.0f64, f64::max);
+    let br = 2.0 * (0.5 * d2max.sqrt()).asin();
+    let (blon, blat) = (c.1.atan2(c.0).rem_euclid(TWO_PI), c.2.max(-1.0).min(1.0).asin());
+    let bnear = thresholds().iter().any(|t| br < *t && br >= 0.97 * *t) as u8;
+    let bcap = (blat.abs() > 0.7297276562269663) as u8;
+    let fits9 = guarded(|| {
+      if !cdshealpix::has_best_starting_depth(br) { return 1u8; }
+      let ds = cdshealpix::best_starting_depth(br).min(depth);
+      let root = nested::get_or_create(ds);
+      let ne = root.neighbours(root.hash(blon, blat), true).values_vec();
+      vs.iter().all(|(lo, la)| ne.contains(&root.hash(*lo, *la))) as u8
+    }).unwrap_or(2);
+    m.insert("bcap".into(), json!(bcap)); m.insert("bnear".into(), json!(bnear)); m.insert("fits9".into(), json!(fits9));
+  }
   Some(ev)
 }
 
